@@ -45,7 +45,7 @@ func augmentImports(rng *vlib.RNG, files []*descriptorpb.FileDescriptorProto) {
 			pub[p] = true
 		}
 		for k := range fd.Dependency {
-			if !pub[int32(k)] && rng.Chance(0.3) {
+			if !pub[int32(k)] && rng.Chance(0.4) {
 				pub[int32(k)] = true
 			}
 		}
@@ -117,7 +117,7 @@ func TestC18(t *testing.T) {
 		"V(f) = {f} ∪ direct imports ∪ their public-import closure is computed from the model's dependency lists by an independent 15-line closure",
 		"the element universe comes from the model descriptors (what was rendered) and, for well-known files, from the Go protobuf runtime's registry (the compiler's standard imports are those same descriptors)",
 	})
-	n := r.N(150, 3000)
+	n := r.N(600, 6000)
 	r.Par(n, func(i int) {
 		id := fmt.Sprintf("g/%d", i)
 		if !r.Want(id) {
